@@ -1,8 +1,13 @@
 ------------------------------- MODULE IsaAvr -------------------------------
 (* Atmel AVR 8-bit instruction set, written from the "AVR Instruction Set" manual (opcode bit patterns    *)
-(* per instruction).  Two device classes are modelled:                                                 *)
-(*   AT90S8515  classic core: no MUL*, MOVW, JMP/CALL, LPM Rd, ELPM, SPM, BREAK                           *)
+(* per instruction).  Two device classes are modelled, each with two memory sizes (DEVICE dimension):    *)
+(*   AT90S8515  classic core: no MUL*, MOVW, JMP/CALL, LPM Rd, ELPM, SPM, BREAK; 4 K words, SRAM ..025FH   *)
+(*   AT90S2313  the same core with 1 K words of flash and 128 bytes of SRAM (..00DFH)                      *)
 (*   ATMEGA128  enhanced core with 64 K words of flash: JMP/CALL (22-bit field, device range 0..65535)   *)
+(*   ATMEGA16   enhanced core with 8 K words: JMP/CALL range 0..8191, no ELPM (flash <= 64 K bytes);       *)
+(*              SRAM ..045FH                                                                            *)
+(* The devices of a class have the same instruction words; what changes with the device is the range of   *)
+(* program addresses (JMP / CALL operand, RJMP / RCALL / BRxx targets) and of data addresses (LDS / STS).   *)
 (* One unit = one 16-bit program word; program addresses are word addresses.                           *)
 (*   two-register ops  oooo oord dddd rrrr      (r: bit 9 + bits 3..0, d: bits 8..4)                    *)
 (*   immediate ops     oooo KKKK dddd KKKK      (d = R16..R31)                                          *)
@@ -18,13 +23,16 @@
 (* SFR names, the byte-addressed code segment option of the assembler.                                 *)
 EXTENDS IsaCommon
 
-\* program memory: AT90S8515 4 K words, ATMEGA128 64 K words
-AddrMaxOf(cpu) == IF cpu = "ATMEGA128" THEN 65535 ELSE 4095
+\* program memory: AT90S2313 1 K words, AT90S8515 4 K, ATMEGA16 8 K, ATMEGA128 64 K words
+AddrMaxOf(cpu) == CASE cpu = "ATMEGA128" -> 65535 [] cpu = "ATMEGA16" -> 8191 [] cpu = "AT90S2313" -> 1023 [] OTHER -> 4095
 UnitBits == 16
-BranchPCsOf(cpu) == IF cpu = "ATMEGA128" THEN {3000, 40000} ELSE {1000, 2100}
+\* (the added devices: one address in the last two words of the flash, so that the small distances -2..2 of the case
+\* generator straddle the END OF THE DEVICE: last word legal, the word behind it must be rejected)
+BranchPCsOf(cpu) == CASE cpu = "ATMEGA128" -> {3000, 40000} [] cpu = "ATMEGA16" -> {3000, 8190}
+                      [] cpu = "AT90S2313" -> {300, 1022} [] OTHER -> {1000, 2100}
 
-Classic == {"AT90S8515"}
-Mega == {"ATMEGA128"}
+Classic == {"AT90S8515", "AT90S2313"}
+Mega == {"ATMEGA128", "ATMEGA16"}
 Both == Classic \cup Mega
 
 RegSeq(lo, n, step, code0) == [i \in 1..n |-> <<"R" \o ToString(lo + (i - 1) * step), code0 + (i - 1)>>]
@@ -58,9 +66,12 @@ CondBr(mn, code) ==
      EXCEPT !.flow = "cond", !.tf = 2]
 CondAlias(mn, code) ==
   [Base(mn, mn, Both, <<Op(1)>>, <<FRel(7, 1)>>, <<U(code, <<P(1, 0, 7, 3)>>)>>) EXCEPT !.flow = "cond", !.tf = 1, !.alias = TRUE]
-LongJmp(mn, code, flow) ==
-  [Base(mn, mn, Mega, <<Op(1)>>, <<FNum(0, 65535, 0, 4194303, 22, FALSE)>>,
+\* one form per device (ids "JMP" / "CALL" for the ATMEGA128): the operand must lie inside the device's flash, larger
+\* values that fit the 22-bit field are convention zone
+LongJmpOf(cpu, mn, code, flow) ==
+  [Base(IF cpu = "ATMEGA128" THEN mn ELSE mn \o " " \o cpu, mn, {cpu}, <<Op(1)>>, <<FNum(0, AddrMaxOf(cpu), 0, 4194303, 22, FALSE)>>,
         <<U(code, <<P(1, 16, 1, 0), P(1, 17, 5, 4)>>), U(0, <<P(1, 0, 16, 0)>>)>>) EXCEPT !.flow = flow, !.tf = 1]
+LongJmp(mn, code, flow) == {LongJmpOf(cpu, mn, code, flow) : cpu \in Mega}
 RegBit(mn, code) == Base(mn, mn, Both, <<Op(1), Op(2)>>, <<R32, FAddr(3)>>, <<U(code, <<P(1, 0, 5, 4), P(2, 0, 3, 0)>>)>>)
 IoBit(mn, code) == Base(mn, mn, Both, <<Op(1), Op(2)>>, <<FAddr(5), FAddr(3)>>, <<U(code, <<P(1, 0, 5, 3), P(2, 0, 3, 0)>>)>>)
 FlagOp(mn, code) == Base(mn, mn, Both, <<Op(1)>>, <<FAddr(3)>>, <<U(code, <<P(1, 0, 3, 4)>>)>>)
@@ -73,7 +84,9 @@ Ldd(ptr, code) == Base("LDD " \o ptr, "LDD", Both, <<Op(1), Arg(ptr \o "+", 2, "
                        <<U(code, DstP(1) \o QP(2))>>)
 Std(ptr, code) == Base("STD " \o ptr, "STD", Both, <<Arg(ptr \o "+", 1, ""), Op(2)>>, <<FRange(0, 63, 6), R32>>,
                        <<U(code, QP(1) \o DstP(2))>>)
-DataAdr(cpu) == IF cpu = "ATMEGA128" THEN FNum(0, 4351, -32768, 65535, 16, FALSE) ELSE FNum(0, 607, -32768, 65535, 16, FALSE)
+\* last data address: 32 registers + 64 (ATMEGA128: 224) I/O registers + SRAM
+DataMaxOf(cpu) == CASE cpu = "ATMEGA128" -> 4351 [] cpu = "ATMEGA16" -> 1119 [] cpu = "AT90S2313" -> 223 [] OTHER -> 607
+DataAdr(cpu) == FNum(0, DataMaxOf(cpu), -32768, 65535, 16, FALSE)
 Lds(cpu) == Base("LDS " \o cpu, "LDS", {cpu}, <<Op(1), Op(2)>>, <<R32, DataAdr(cpu)>>,
                  <<U(36864, DstP(1)), U(0, <<P(2, 0, 16, 0)>>)>>)
 Sts(cpu) == Base("STS " \o cpu, "STS", {cpu}, <<Op(1), Op(2)>>, <<DataAdr(cpu), R32>>,
@@ -100,7 +113,6 @@ Forms ==
     WordImm("ADIW", 38400), WordImm("SBIW", 38656),
     RelJmp("RJMP", 49152, "jump"), RelJmp("RCALL", 53248, "call"),
     CondBr("BRBS", 61440), CondBr("BRBC", 62464),
-    LongJmp("JMP", 37900, "jump"), LongJmp("CALL", 37902, "call"),
     [Fixed("IJMP", 37897, Both) EXCEPT !.flow = "stop"], Fixed("ICALL", 38153, Both),
     [Fixed("RET", 38152, Both) EXCEPT !.flow = "ret"], [Fixed("RETI", 38168, Both) EXCEPT !.flow = "ret"],
     RegBit("SBRC", 64512), RegBit("SBRS", 65024), RegBit("BST", 64000), RegBit("BLD", 63488),
@@ -108,7 +120,6 @@ Forms ==
     FlagOp("BSET", 37896), FlagOp("BCLR", 38024),
     Base("IN", "IN", Both, <<Op(1), Op(2)>>, <<R32, FAddr(6)>>, <<U(45056, DstP(1) \o IoP(2))>>),
     Base("OUT", "OUT", Both, <<Op(1), Op(2)>>, <<FAddr(6), R32>>, <<U(47104, IoP(1) \o DstP(2))>>),
-    Lds("AT90S8515"), Lds("ATMEGA128"), Sts("AT90S8515"), Sts("ATMEGA128"),
     LdPtr("X", 36876, Both), LdPtr("X+", 36877, Both), LdPtr("-X", 36878, Both),
     LdPtr("Y+", 36873, Both), LdPtr("-Y", 36874, Both), LdPtr("Z+", 36865, Both), LdPtr("-Z", 36866, Both),
     [LdPtr("Y", 32776, Both) EXCEPT !.alias = TRUE], [LdPtr("Z", 32768, Both) EXCEPT !.alias = TRUE],
@@ -116,7 +127,7 @@ Forms ==
     StPtr("Y+", 37385, Both), StPtr("-Y", 37386, Both), StPtr("Z+", 37377, Both), StPtr("-Z", 37378, Both),
     [StPtr("Y", 33288, Both) EXCEPT !.alias = TRUE], [StPtr("Z", 33280, Both) EXCEPT !.alias = TRUE],
     Ldd("Y", 32776), Ldd("Z", 32768), Std("Y", 33288), Std("Z", 33280),
-    Fixed("LPM", 38344, Both), Fixed("ELPM", 38360, Mega),
+    Fixed("LPM", 38344, Both), Fixed("ELPM", 38360, {"ATMEGA128"}),
     Base("LPM Z", "LPM", Mega, <<Op(1), Lit("Z")>>, <<R32>>, <<U(36868, DstP(1))>>),
     Base("LPM Z+", "LPM", Mega, <<Op(1), Lit("Z+")>>, <<R32>>, <<U(36869, DstP(1))>>),
     Base("MOVW", "MOVW", Mega, <<Op(1), Op(2)>>, <<Reven, Reven>>, <<U(256, <<P(1, 0, 4, 4), P(2, 0, 4, 0)>>)>>),
@@ -127,6 +138,8 @@ Forms ==
     Base("FMULSU", "FMULSU", Mega, <<Op(1), Op(2)>>, <<R1623, R1623>>, <<U(904, <<P(1, 0, 3, 4), P(2, 0, 3, 0)>>)>>),
     Fixed("NOP", 0, Both), Fixed("SLEEP", 38280, Both), Fixed("WDR", 38312, Both), Fixed("BREAK", 38296, Mega),
     Fixed("SPM", 38376, Mega) }
+  \cup LongJmp("JMP", 37900, "jump") \cup LongJmp("CALL", 37902, "call")
+  \cup {Lds(cpu) : cpu \in Both} \cup {Sts(cpu) : cpu \in Both}
   \cup {CondAlias(BrAliases[i][1], (IF BrAliases[i][3] = 1 THEN 61440 ELSE 62464) + BrAliases[i][2]) : i \in 1..Len(BrAliases)}
   \cup {FixedAlias(FlagAliases[i][1], 37896 + 16 * FlagAliases[i][2]) : i \in 1..8}
   \cup {FixedAlias(ClrAliases[i][1], 38024 + 16 * ClrAliases[i][2]) : i \in 1..8}
